@@ -318,6 +318,13 @@ where
         self.get_mut().seek(SeekFrom::Start(cpos))?;
         self.position = cpos;
 
+        // Discard the current block. If no block follows `cpos` (e.g., when seeking to the end of
+        // the stream), the previously loaded block must not be served again.
+        self.buffer.block.set_position(cpos);
+        self.buffer.block.set_size(0);
+        self.buffer.block.data_mut().set_position(0);
+        self.buffer.block.data_mut().resize(0);
+
         self.read_block()?;
 
         self.buffer.block.data_mut().set_position(usize::from(upos));
